@@ -4,7 +4,8 @@
 N=$1; shift
 P=/tmp/seed/$N-out/patch.diff
 [ -f "$P" ] || P=/verif/benign/$N/patch.diff
-cd /repo && git status --short | grep -q . && { echo "/repo not clean"; exit 2; }
+REPO=${OOMD_REPO:-/repo}
+cd $REPO && git status --short | grep -q . && { echo "$REPO not clean"; exit 2; }
 git apply "$P" || { echo "patch does not apply"; exit 2; }
 files=$(git diff --name-only)
 ids="$@"
@@ -29,8 +30,8 @@ ids=$(echo $ids | tr ' ' '\n' | sort -u | tr '\n' ' ')
 echo "files: $files"; echo "checks: $ids"
 cd /verif
 for id in $ids; do
-  out=$(./check $id --tier quick 2>&1); rc=$?
+  out=$(OOMD_REPO=$REPO ./check $id --tier quick 2>&1); rc=$?
   echo "  $id rc=$rc $(echo "$out" | grep -E "^\[$id" | tail -1 | cut -c1-150)"
   [ $rc -ne 0 ] && echo "$out" | grep -E "signature:|HARNESS|error:" | head -6
 done
-git -C /repo checkout HEAD -- . ; git -C /repo status --short
+git -C $REPO checkout HEAD -- . ; git -C $REPO status --short
